@@ -484,18 +484,119 @@ Definition ok_w (c : w_case) : bool :=
              else negb (wc_drawn c) && Qeq_bool (wo_impl_w o) 0)
           (wc_obs c).
 
+(** ---- construction histories: a family of boxes ----
+    Several boxes are built one after another, possibly from the SAME array objects (limits, rotation,
+    centre) and with the caller overwriting its limits buffer between two constructions.  Every member
+    records the values that were handed to ITS constructor and what the implementation reports about THAT
+    box once the whole history is over (attributes, contains/pdf on chosen points, sample() rows).
+    The model has no state shared between boxes: every member is compared with a fresh [mk_box] of its
+    own inputs, and every member has to satisfy the property on its own ([ok_box]: proper limits, volume =
+    product of the widths of the limits the box reports, density 1/volume exactly on the set its
+    [contains] accepts = [within] those limits, drawn samples contained). *)
+Definition agree_fam (l : list box_case) : bool := forallb agree_box l.
+Definition ok_fam (l : list box_case) : bool := forallb ok_box l.
+
+(** ---- call histories on one posterior ----
+    One [RomcPosterior] object; the steps are [reset_eps_cutoff(eps)], an evaluation of the unnormalised
+    density at a point ([_pdf_unnorm_single_point] / one row of [pdf_unnorm_batched]) and the weights
+    [sample()] gives to the rows drawn from one region.  The only state of the model is the current
+    cut-off: the constructor's value until the first reset, then the value of the latest reset. *)
+Record ev_obs := {
+  eo_theta : vec; eo_dists : list Q; eo_prior : Q;    (* point, func_i(theta) oracle, prior.pdf(theta) oracle *)
+  eo_tol : Q;                                          (* as [pc_tol] *)
+  eo_impl_val : Q; eo_impl_called : list nat
+}.
+Record hw_obs := { ho_region : nat; ho_drawn : bool; ho_obs : list w_obs }.
+
+Inductive hstep :=
+| HReset (eps : Q)
+| HEval (e : ev_obs)
+| HWeight (w : hw_obs).
+
+Record hist_case := {
+  hc_regions : list region_in; hc_surrogate : bool;
+  hc_eps0 : Q;                     (* eps_cutoff given to the constructor *)
+  hc_tol : Q;                      (* margin for the weight steps, as [wc_tol] *)
+  hc_steps : list hstep
+}.
+
+(** [hist_all f eps steps]: [f cut-off step] holds at every non-reset step, the cut-off being threaded *)
+Fixpoint hist_all (f : Q -> hstep -> bool) (eps : Q) (steps : list hstep) : bool :=
+  match steps with
+  | [] => true
+  | HReset e :: r => hist_all f e r
+  | s :: r => f eps s && hist_all f eps r
+  end.
+
+(** the cut-off in force at step [i]: declarative counterpart (latest reset strictly before [i]) *)
+Fixpoint cutoff_at (eps : Q) (steps : list hstep) (i : nat) : Q :=
+  match i, steps with
+  | S j, HReset e :: r => cutoff_at e r j
+  | S j, _ :: r => cutoff_at eps r j
+  | _, _ => eps
+  end.
+
+Definition step_post (c : hist_case) (eps : Q) (e : ev_obs) : post_case :=
+  {| pc_regions := hc_regions c; pc_surrogate := hc_surrogate c; pc_theta := eo_theta e;
+     pc_dists := eo_dists e; pc_eps := eps; pc_prior := eo_prior e; pc_tol := eo_tol e;
+     pc_impl_val := eo_impl_val e; pc_impl_called := eo_impl_called e |}.
+
+Definition step_w (c : hist_case) (eps : Q) (w : hw_obs) : option w_case :=
+  match nth_error (hc_regions c) (ho_region w) with
+  | Some r => Some {| wc_region := r; wc_eps := eps; wc_tol := hc_tol c; wc_drawn := ho_drawn w; wc_obs := ho_obs w |}
+  | None => None
+  end.
+
+Definition agree_step (c : hist_case) (eps : Q) (s : hstep) : bool :=
+  match s with
+  | HReset _ => true
+  | HEval e => agree_post (step_post c eps e)
+  | HWeight w => match step_w c eps w with Some wc => agree_w wc | None => false end
+  end.
+
+Definition ok_step (c : hist_case) (eps : Q) (s : hstep) : bool :=
+  match s with
+  | HReset _ => true
+  | HEval e => ok_post (step_post c eps e)
+  | HWeight w => match step_w c eps w with Some wc => ok_w wc | None => true end
+  end.
+
+Definition agree_hist (c : hist_case) : bool := hist_all (agree_step c) (hc_eps0 c) (hc_steps c).
+Definition ok_hist (c : hist_case) : bool := hist_all (ok_step c) (hc_eps0 c) (hc_steps c).
+
+(** the model's own run of a history of queries (the [eo_impl_*] fields of the input are ignored and
+    replaced by the model's answers; weight steps are dropped) *)
+Definition model_eval (sur : bool) (bs : list box) (eps : Q) (e : ev_obs) : ev_obs :=
+  match pdf_unnorm sur bs (eo_theta e) (eo_dists e) eps (eo_prior e) with
+  | Some (v, _, called) =>
+      {| eo_theta := eo_theta e; eo_dists := eo_dists e; eo_prior := eo_prior e; eo_tol := eo_tol e;
+         eo_impl_val := v; eo_impl_called := called |}
+  | None => e
+  end.
+Fixpoint model_hist (sur : bool) (bs : list box) (eps : Q) (steps : list hstep) : list hstep :=
+  match steps with
+  | [] => []
+  | HReset e :: r => HReset e :: model_hist sur bs e r
+  | HEval e :: r => HEval (model_eval sur bs eps e) :: model_hist sur bs eps r
+  | HWeight _ :: r => model_hist sur bs eps r
+  end.
+
 Inductive case :=
 | CBox (c : box_case)
 | CLine (c : ls_case)
 | CPost (c : post_case)
-| CWeight (c : w_case).
+| CWeight (c : w_case)
+| CFam (l : list box_case)
+| CHist (c : hist_case).
 
 Definition agree (c : case) : bool :=
   match c with
   | CBox b => agree_box b | CLine l => agree_ls l | CPost p => agree_post p | CWeight w => agree_w w
+  | CFam l => agree_fam l | CHist h => agree_hist h
   end.
 
 Definition ok (c : case) : bool :=
   match c with
   | CBox b => ok_box b | CLine l => ok_ls l | CPost p => ok_post p | CWeight w => ok_w w
+  | CFam l => ok_fam l | CHist h => ok_hist h
   end.
